@@ -87,12 +87,18 @@ theorem isPSIPayload_eq_generated (pid : Nat) (pm : ProgramMap) :
     isPSIPayload pid pm = Generated.isPSIPayload pid (pm.has pid) := by
   rw [generated_isPSIPayload]; rfl
 
-/-- the order of the tests in `packetAccumulator.add` as found in the source today:
-duplicate test before discontinuity test (whose reset is waived for a discontinuity announced on a unit start), then the
-flush on unit start, then the PSI completeness test -/
+/-- the order of the tests in `packetAccumulator.add` as found in the source today.  The regenerated fact lists, for
+every `if` statement of the function in source order, the SET of the tests that occur in its condition (sorted, joined
+by `+`), after the local variables of the condition have been replaced by their definitions — so hoisting
+`isSameAsPrevious(mps, p)` into a local or re-bracketing one condition does not change it, while moving a test to
+another `if`, dropping one or swapping two `if`s does:
+duplicate test first; then the discontinuity test (whose reset is waived for a discontinuity announced on a unit start
+that is not a duplicate: the three tests of the second condition); then the flush on unit start; then the PSI
+completeness test -/
 theorem add_order_in_source :
-    Generated.Facts.accumulatorAddOrder = ["isSameAsPrevious", "hasDiscontinuity", "isSameAsPrevious",
-      "p.Header.PayloadUnitStartIndicator", "p.Header.PayloadUnitStartIndicator", "isPSIComplete"] := by
+    Generated.Facts.accumulatorAddOrder = ["isSameAsPrevious",
+      "hasDiscontinuity+isSameAsPrevious+p.Header.PayloadUnitStartIndicator",
+      "p.Header.PayloadUnitStartIndicator", "isPSIComplete"] := by
   decide
 
 /-- a unit start that announces a discontinuity hands over everything accumulated so far (it is not discarded) and
